@@ -33,6 +33,11 @@ theorem grow_recordInst (s : St) (g i : Nat) (x : Inst) (k : Nat) : Grow s (reco
 
 theorem grow_step (s s' : St) (e : Ev) (hs : step s e = some s') : Grow s s' := by
   cases e with
+  | nilnext k =>
+    simp only [step] at hs
+    split at hs
+    · simp at hs; subst hs; exact grow_congr rfl rfl
+    · simp at hs
   | config c =>
     simp only [step] at hs
     split at hs
